@@ -93,10 +93,15 @@ def make_hooks(dom, rec, n, flag_policy=None, ode_out=None, on_ode=None, extra=N
         y = it.expr(arg_ns[2], env)
         interp = it.expr(arg_ns[3], env)
         k = len(rec.callbacks)
-        rec.callbacks.append({"xold": xold, "x": x, "y": list(y.items()), "interp": interp})
+        cb = {"xold": xold, "x": x, "y": list(y.items()), "interp": interp,
+              "n_ode": len(rec.ode_calls), "n_jac": len(rec.jac_calls)}
+        rec.callbacks.append(cb)
         if recv.flag_policy is None:
+            cb["y_after"] = list(y.items())
             return REnum("Continue")
-        return recv.flag_policy(it, k, x, y)
+        fl = recv.flag_policy(it, k, x, y)
+        cb["y_after"] = list(y.items())
+        return fl
 
     def ctor_interp(it, cont, xold, h, f):
         return RStruct("StepInterpolant", {"cont": cont, "xold": xold, "h": h, "interp_fn": f})
